@@ -46,6 +46,33 @@ CLAIMED = {
             "Python aliasing is outside a Gallina model; it is tied by the live-vs-model comparison and by C05."),
 }
 
+CLAIMED.update({
+    "C01": ("PARTIAL. Proved: every offer of get_next_tasks is the (id, route) of a ready, not-completed staged entry of the "
+            "state the call was made in (for every evaluator and state); the recorded justification (prev, ctxs.in) of a "
+            "started record is permanent. Tested, not proved: a record is created only for a start task or through a satisfied "
+            "transition of a completed predecessor that is a transition of the definition; exactly-once and the multiset "
+            "equality with what the definition prescribes.",
+            "Monitor c01 reads transitions and start tasks straight from the definition; known findings D1, D8."),
+    "C05": ("Proved: the codec round trip dec_cstate (enc_cstate c) = Some c for every initialised state (no other "
+            "well-formedness needed; transition/pointer ids round-trip for every task name), persisting a restored conductor "
+            "reproduces the form, persist is the identity on initialised states, and therefore for every evaluator, history "
+            "and every subset of persist points the final state and every observation are unchanged. The substance on the "
+            "real engine is Python aliasing, which is tied by running every case never-persisted / persisted-after-every-call / "
+            "persisted-at-random-points on the engine and against the model.",
+            "The model has value semantics by construction; aliasing defects are found by the three-way engine runs (D3, D20 "
+            "were found this way and repaired)."),
+    "C12": ("Proved about choose_items (the model of _evaluate_task_actions): offered + active <= concurrency; the offer is "
+            "a prefix in item order of the items that have not run; edge cases; an item event with another item active never "
+            "completes the task (table sweep); nothing offered while held. Tested, not proved: bookkeeping across calls "
+            "(each item once per execution, succeeds iff all items succeed, window in every reachable state).",
+            "Window counts active items (pending/paused items are not active, as in the engine)."),
+    "C13": ("PARTIAL. Proved: the retry decision is yes only while tally < count and only if the condition holds for the "
+            "latest execution; retrying is entered only by the internal retry event from a completed status and the decision is "
+            "taken only when the table accepts it; a re-offered retry carries the retry delay. Tested, not proved: tally <= count "
+            "over whole histories; no transition/publish for a retried attempt.",
+            "Bound over histories needs the two-level analysis of the re-entrant update_task_state call."),
+})
+
 NOT_YET = {}
 
 
